@@ -276,9 +276,15 @@ class MuSigTapScript(TapScript):
         return sum_1, sum_2
 
     def compute_coefficient(self, nonce_sums, sig_hash):
-        bytes_to_hash = (
-            nonce_sums[0].sec() + nonce_sums[1].sec() + self.point.xonly() + sig_hash
-        )
+        def ser(point):
+            # nonce components of different signers may cancel (k and N-k): the sum is
+            # then the point at infinity, serialized as 33 zero bytes (as in BIP327)
+            if point.x is None:
+                return b"\x00" * 33
+            return point.sec()
+
+        bytes_to_hash = ser(nonce_sums[0]) + ser(nonce_sums[1])
+        bytes_to_hash += self.point.xonly() + sig_hash
         return big_endian_to_int(hash_musignonce(bytes_to_hash))
 
     def compute_k(self, nonce_secrets, nonce_sums, sig_hash):
